@@ -14,7 +14,7 @@ cd $W
 PYTHONPATH=$W/src /venv/bin/python $V/seeded/$ID/demo.py >/dev/null 2>&1; clean_rc=$?
 if ! git apply $V/seeded/$ID/patch.diff; then echo "patch does not apply"; $V/tools/wt rm $W; exit 3; fi
 PYTHONPATH=$W/src /venv/bin/python $V/seeded/$ID/demo.py >/dev/null 2>&1; mut_rc=$?
-base_out=$($V/tools/baseline_check.py $W | head -1)
+if [ -n "${SKIP_BASELINE:-}" ]; then base_out="not re-run here (agent reported: $SKIP_BASELINE)"; else base_out=$($V/tools/baseline_check.py $W | head -1); fi
 cd $V
 check_out=$(tools/wt run $W ./check $P --tier $TIER 2>&1 | grep -E "VIOLATION|KNOWN-FINDING|^\[$P\]|HARNESS" | head -8)
 detected=no; echo "$check_out" | grep -q "^VIOLATION" && detected=yes
